@@ -65,6 +65,10 @@ pub enum Family {
     /// n buffers, n small helpers behind one shared fan-out helper, n entry points each touching
     /// its own buffer: hundreds of declarations, call depth 3.
     KernelLib { n: u32 },
+    /// Small programs with huge NUMBERS in them: binding and group indices near u32::MAX, array
+    /// lengths in the hundreds of millions, large workgroup sizes and override ids. Cost must
+    /// follow the size of the text, not the magnitude of its literals.
+    Magnitude { bindings: u32, seed: u64 },
     /// Breadth instead of depth: many entry points x many globals x many members x vertex inputs.
     Wide { entries: u32, globals: u32, members: u32, vertex_structs: u32 },
 }
@@ -75,6 +79,7 @@ impl Family {
             Family::Chain { ptr_args: true, .. } => "chain_ptr_args",
             Family::Diamond { ptr_args: true, .. } => "diamond_ptr_args",
             Family::KernelLib { .. } => "kernel_library",
+            Family::Magnitude { .. } => "huge_literals",
             Family::Chain { pure_helpers: true, .. } => "chain_pure",
             Family::Diamond { pure_helpers: true, .. } => "diamond_pure",
             Family::Dag { pure_helpers: true, .. } => "layered_dag_pure",
@@ -107,6 +112,7 @@ impl Family {
             Family::Flat { .. } => 0,
             Family::Wide { entries, globals, .. } => (*entries).min(*globals),
             Family::KernelLib { n } => *n,
+            Family::Magnitude { bindings, .. } => 8 + *bindings,
         }
     }
 
@@ -413,6 +419,35 @@ pub fn source(family: &Family) -> String {
                 depth / 2
             );
         }
+        Family::Magnitude { bindings, seed } => {
+            let mut rng = Rng::new(*seed);
+            let big = |rng: &mut Rng| -> u64 {
+                match rng.below(4) {
+                    0 => i32::MAX as u64 - rng.below(1000), // naga wants binding indices to fit in i32
+                    1 => 1_000_000_000 + rng.below(1_000_000),
+                    2 => 65_536 + rng.below(100_000),
+                    _ => rng.below(1 << 31),
+                }
+            };
+            let _ = writeln!(out, "struct Mg {{\n    small: vec4<f32>,\n    table: array<vec4<f32>, 100000000>,\n    grid: array<array<f32, 20000>, 20000>,\n}}");
+            let mut used = std::collections::BTreeSet::new();
+            for b in 0..(*bindings).max(1) {
+                let mut index = big(&mut rng);
+                while !used.insert(index) {
+                    index = big(&mut rng);
+                }
+                let _ = writeln!(
+                    out,
+                    "@group(0) @binding({index}) var<storage, read> mg{b}: {};",
+                    if b % 3 == 0 { "Mg" } else { "array<vec4<f32>>" }
+                );
+            }
+            let _ = writeln!(out, "@id(65535) override mg_ov: f32 = 1.0;\nconst MG_BIG: u32 = 4294967295u;");
+            let _ = writeln!(
+                out,
+                "@compute @workgroup_size(1024, 1, 1)\nfn cs_main() {{\n    let a = mg0.small.x * mg_ov + f32(MG_BIG);\n}}"
+            );
+        }
         Family::KernelLib { n } => {
             for i in 0..*n {
                 let _ = writeln!(
@@ -710,6 +745,9 @@ pub fn systematic_families() -> Vec<Family> {
     for n in [8, 75, 150, 300, 400] {
         v.push(Family::KernelLib { n });
     }
+    for (bindings, seed) in [(1, 1), (4, 2), (16, 3), (64, 4)] {
+        v.push(Family::Magnitude { bindings, seed });
+    }
     for (functions, structs, bindings) in [(10, 2, 2), (60, 10, 8), (200, 30, 16), (400, 60, 16)] {
         v.push(Family::Flat { functions, structs, bindings });
     }
@@ -735,6 +773,10 @@ pub fn random_family(rng: &mut Rng) -> Family {
         },
         4 if rng.chance(300) => Family::KernelLib {
             n: rng.range(1, 400) as u32,
+        },
+        4 if rng.chance(300) => Family::Magnitude {
+            bindings: rng.range(1, 64) as u32,
+            seed: rng.below(1 << 30),
         },
         4 => Family::Fanout {
             sites: rng.range(1, 200) as u32,
